@@ -203,12 +203,13 @@ AREAS["C02"] = {
                                    "a difference that remains after catch-up is coded separately (bit 4, finding equal-hash-different-content) exactly when the model's blind_only holds on the two real dumps: all stored hashes are the "
                                    "correct Merkle hashes of the dumped content and every differing placement lies below a pair of equal compared hashes; any other remaining difference is a violation",
                                    "NATS reconnection, timer races and the goroutines of the sync client are not modelled: catch-up is modelled as a sequence of syncNode passes with no concurrent writes"],
-    "level_text": "proof (partial): C02_exchange_join (the two comparison loops leave both sides with the identity-wise newest point of either side, for all point lists), its store-level corollaries, "
-                  "C02_no_revert_node/edge, C02_equal_hash_is_a_fixpoint and C02_convergence_refuted (the full convergence statement is false of the faithful model: equal XOR hashes over different content) "
-                  "are Coq theorems; the recursive catch-up (hash short-cut, descent into children, transfer of nodes missing on one side) is an executable model validated on every run "
-                  "against two real linked instances, and the convergence / no-lost-write specification is evaluated on the real dumps",
-    "level_note": "partial: convergence of the whole recursion is established by correspondence on generated histories, not by a theorem; link-level behaviour (reconnects, timers, "
-                  "callback goroutines) cannot be exhibited by the model",
+    "level_text": "proof (partial): C02_recursion_converges (one pass of syncNode over a tree-shaped device subtree that both sides hold leaves, on every node and edge of it and on both sides, the newer point "
+                  "per identity of the two they held, touches nothing outside it and keeps both stores in good standing - for every such pair of stores, every tree height, under faithful hashes), "
+                  "C02_exchange_join / C02_node_exchange_store / C02_edge_exchange_store (the two comparison loops), C02_no_revert_node/edge, C02_equal_hash_is_a_fixpoint and C02_convergence_refuted "
+                  "(without faithful hashes the statement is false of the faithful model: equal XOR hashes over different content) are Coq theorems; the whole catch-up (incl. transfer of nodes that exist "
+                  "on one side only) is an executable model validated on every run against two real linked instances, and the convergence / no-lost-write specification is evaluated on the real dumps",
+    "level_note": "partial: the recursion theorem covers subtrees present on both sides (deletions are tombstone points and are covered); nodes created on one side only (sendNodesRemote / sendNodesLocal) and "
+                  "mirrors inside the device tree are covered by correspondence on generated histories, not by a theorem; link-level behaviour (reconnects, timers, callback goroutines) cannot be exhibited by the model",
 }
 
 AREAS["C18"] = {'area': 'c18',
